@@ -35,7 +35,9 @@ CHECKS = {
         "reference stack model. The fixpoint covers programs of any length and every interleaving at operation granularity. "
         "(b) real threads under a baton scheduler with every line of config.py as a scheduling point: every pair of small programs, "
         "every schedule up to the stated preemption bound; each thread must observe exactly its own reference trace, and a thread "
-        "re-using either identifier afterwards must read environment/default values.",
+        "re-using either identifier afterwards must read environment/default values. (c) consumers: for every key the lazy runner reads, every pair "
+        "(context in which the runner object is constructed, context in which it is analysed) over {no scope, K=v, K=v'} x {scope ended normally, by exception, "
+        "object only touched in the scope, scope still open in another thread}: the analysis must see exactly the configuration of the context it runs in.",
         "Trusted: the reference stack semantics written from the property text; GIL atomicity below line granularity; "
         "thread identity reuse modelled through the get_ident seam. The model is the real object (no separate model to conform).",
         "DESIGN.md section 5 C15",
@@ -49,7 +51,7 @@ CHECKS = {
         "RENAME: 40 letters; 15 letters on 2 tables, searched to a fixpoint); every transition folds real analyzer holders with the "
         "real SQLLineageHolder.of and compares roles and table edges with a reference state written from the property text; states "
         "deduplicated by (table-level projection of the folded graph, reference state). (b) every history up to depth 2-4 is rendered "
-        "to a real script and run through LineageRunner (ansi, mysql RENAME TABLE, tsql, non-validating in thorough); summary, "
+        "to a real script (with and without a terminator after the last statement, so that repeated statements are also repeated character by character) and run through LineageRunner (ansi, mysql RENAME TABLE, tsql, non-validating in thorough); summary, "
         "exported table edges and statement count must equal the reference's.",
         "Trusted: the reference fold (about 60 lines, from the property text; unconstrained where the text is silent: RENAME of a "
         "marked table or onto an existing table); the canonical projection's soundness argument (DESIGN.md C03).",
@@ -63,6 +65,8 @@ CHECKS = {
         "Every statement the generator can produce with at most 2 (quick) / 3 (thorough) deviations from the default choice at its labelled choice "
         "points (statement kind x query form x FROM shape x relation kind x WHERE form x select-list form x tail, nesting <= 2), rendered under 7 "
         "(quick) / all 28 (thorough) sqlfluff dialects, is analysed by the real runner; sources and target must equal the reference exactly. "
+        "Two further balls with the same bound: around a union of two derived tables (alias re-use across branches), and around a path-bearing centre "
+        "(COPY t FROM / COPY t TO / COPY (query) TO, INSERT OVERWRITE [LOCAL] DIRECTORY, files read in any FROM slot) under the dialects that have these forms. "
         "Exhaustive for the stated bound; compositions of two/three shapes are exactly where the suite is blind.",
         "Trusted: refsem.tables (reference semantics from the property text, self-tested); sqlfluff as the judge of which dialect accepts a text; "
         "known findings are matched exactly (dialect, text, observed answer) from pins/C01.json.",
@@ -148,8 +152,8 @@ CHECKS = {
         "vmc/c05.py (E1 over script shapes; C03 reference fold + path composition as oracle)",
         "exploration",
         "deviation-bounded exhaustive enumeration of scripts (statements x separators x leading/trailing noise); statements() and lineage vs. combination of single-statement analyses",
-        "Every script within 3 (quick) / 4 (thorough) deviations of a single plain INSERT over: 1-3 (1-5) statements from a pool of 10-12 (';' in a literal, in a "
-        "quoted identifier, doubled-quote escape, $$ literal, SELECT, DROP, UPDATE, union, a reader of an earlier target, RENAME, SELECT INTO), 8 separators "
+        "Every script within 3 (quick) / 4 (thorough) deviations of a single plain INSERT over: 1-3 (1-5) statements from a pool of 12-14 (';' in a literal, in a "
+        "quoted identifier, doubled-quote escape, $$ literal, SELECT, DROP, UPDATE, union, readers of an earlier target (INSERT..SELECT, bare query, SELECT *), RENAME, SELECT INTO), 8 separators "
         "(with comments containing ';' and comment-only pieces), 5 leading and 5 trailing variants; ansi, mysql, tsql (+ postgres, sparksql); tsql no-semicolon mode "
         "by environment and by scoped override. statements() must be exactly the statements in order; tables must equal the C03 reference fold of what each "
         "statement reports alone, column pairs the composition of the statements' own column paths.",
